@@ -18,7 +18,7 @@ RULE = ("seeded histories on the Container contract compiled from the working tr
         "distinct_nontrivial = distinct (operation, observation) pairs of HALTed invocations")
 PROPS = {
     "C14": dict(driver="drv_placement", harness="placement", lean=["NeoFS.Props.C14"], monitors=["C14"],
-                shards=dict(quick=1, thorough=16), rule=RULE, facts=["consts"], case_attrs="wf meta=" + META,
+                shards=dict(quick=1, thorough=16), rule=RULE, facts=["consts", "footprint"], case_attrs="wf meta=" + META,
                 trusted=["ECDSA (secp256r1/SHA-256) is a parameter of the model: the harness produces real signatures and states on the op line for which key each one verifies; the statement is checked against a real verification before the op is executed",
                          "stdlib deserialisation of the meta information is done by the harness (neo-go's own stackitem codec); the model sees the decoded fields",
                          "validuntil is compared with ledger.CurrentIndex() as a difference (the op line carries validuntil - CurrentIndex)"]),
